@@ -23,7 +23,8 @@ pub struct Case {
 
 pub fn gen_case(t_: &mut Tape, tier: Tier) -> Option<Case> {
     let mo = if t_.chance(0.3) { 1.0 / 64.0 } else { 0.15 };
-    let p = gen::gen_phys(t_, &PhysOpts { max_e: tier.pick(8, 9), max_l: 5, min_omega: mo, dmax: 6, max_ops: 3, profile: gen::MODERATE })?;
+    let opts = PhysOpts { max_e: tier.pick(8, 9), max_l: 5, min_omega: mo, dmax: 6, max_ops: 3, profile: gen::MODERATE };
+    let p = if t_.chance(0.12) { gen::gen_phys_union(t_, &opts)? } else { gen::gen_phys(t_, &opts)? };
     let dim = gen::dimension(&p.g);
     let n = t_.range(1, 3);
     let perturb = (0..n)
@@ -69,7 +70,7 @@ fn fmt(d: u128) -> String {
 fn check_d<const D: usize>(c: &Case, ctx: &mut Ctx) -> Result<(), Failure> {
     let p = &c.p;
     phys::classes_label(p, ctx);
-    let (ne, nl) = phys::validate(p)?;
+    let (ne, nl) = phys::validate_opt(p, true)?;
     let g = &p.g;
     let s = match sut::build::<D>(g, p.kin.sig.clone()) {
         Ok(s) => s,
@@ -255,12 +256,12 @@ fn finish(ctx: &mut Ctx, ne: usize, nl: usize, d: usize) -> Result<(), Failure> 
     Ok(())
 }
 pub fn check(c: &Case, ctx: &mut Ctx) -> Result<(), Failure> {
-    phys::validate(&c.p)?;
+    phys::validate_opt(&c.p, true)?;
     with_d!(c.p.g.d, check_d(c, ctx))
 }
 pub fn run(tier: Tier, seed: u64) -> i32 {
     let t0 = Instant::now();
-    let sp = Spec { id: "C14", rule: RULE, tape_len: 300, cases: tier.pick(20_000, 300_000), gen: gen_case, check, max_shrink_iters: 3000, shards: 16 };
+    let sp = Spec { id: "C14", rule: RULE, tape_len: 300, cases: tier.pick(100_000, 1_000_000), gen: gen_case, check, max_shrink_iters: 3000, shards: 16 };
     let mut stats = engine::run_spec(&sp, tier, seed);
     engine::run_regressions::<Case>("C14", check, &mut stats);
     engine::finish("C14", tier, seed, RULE, stats, t0, serde_json::json!({}), &["dependency sets are syntactic (a value multiplied by zero still carries its dependencies): coverage claims are upper bounds, complemented by the value-level perturbation", "the tracked scalar performs the same f64 arithmetic as plain f64"])
